@@ -205,3 +205,26 @@ def NestMacro(self, a="d", b="d", c="d"):
     prog = PENDING[-1]
     ns = populate(self, prog, {"a": a, "b": b, "c": c})
     return ns[prog["ret"]].outputs.o
+
+
+# ---- a node whose failure travels with its INPUT (works in a spawned worker process: no table to inherit) ----------
+
+
+def _rx(a="d", b="d", c="d"):
+    if isinstance(a, str) and a.startswith("raise:"):
+        raise FAMILY[a[6:]]("rx")
+    return ("rx", a, b, c)
+
+
+_rx.__name__ = "RX"
+_rx.__qualname__ = "RX"
+RX = as_function_node("o", validate_output_labels=False)(_rx)
+
+
+@as_macro_node("o")
+def RXMacro(self, a="d"):
+    """first -> RX -> last, the macro's input goes to the RX node"""
+    self.first = G0()
+    self.rx = RX(a=a, b=self.first)
+    self.last = G1(a=self.rx)
+    return self.last
